@@ -37,9 +37,11 @@ class DrainPath:
         self.ret_text = ""
         self.defs: Dict[str, str] = {}
         self.def_lines: Dict[str, int] = {}
+        self.attr_env: Dict[str, str] = {}     # self.<attr> (not the buffer) -> the value this path last stored there
 
     def clone(self):
         p = DrainPath()
+        p.attr_env = dict(self.attr_env)
         p.env = dict(self.env)
         p.ver = dict(self.ver)
         p.conds = list(self.conds)
@@ -76,8 +78,16 @@ class DrainAnalysis:
                 if n.id in p.ver:
                     return ast.Name(id=f"{n.id}@{p.ver[n.id]}", ctx=ast.Load())
                 return n
+
+            def visit_Attribute(s, n):
+                if isinstance(n.value, ast.Name) and n.value.id == "self" and isinstance(n.ctx, ast.Load) and n.attr in p.attr_env:
+                    try:
+                        return ast.parse(p.attr_env[n.attr].replace("@", "__AT__"), mode="eval").body
+                    except SyntaxError:
+                        return n
+                return s.generic_visit(n)
         import copy
-        return norm(T().visit(copy.deepcopy(e)))
+        return norm(T().visit(copy.deepcopy(e))).replace("__AT__", "@")
 
     def _block(self, stmts, live: List[DrainPath]):
         for s in stmts:
@@ -119,6 +129,8 @@ class DrainAnalysis:
             an = attr_name(tg)
             if an is not None:
                 p.ops.append(("attr_assign", (an, vt), s))
+                if an != OBUF:
+                    p.attr_env[an] = f"({vt})"
                 return [p]
             raise AnalysisError(f"drain: unsupported assignment target {norm(tg)}")
         if isinstance(s, ast.AugAssign):
@@ -205,7 +217,10 @@ def parse_slice(text: str):
     if isinstance(n, ast.Subscript) and isinstance(n.slice, ast.Slice) and n.slice.step is None:
         lo = norm(n.slice.lower) if n.slice.lower is not None else None
         hi = norm(n.slice.upper) if n.slice.upper is not None else None
-        return norm(n.value), lo, hi, copied
+        base = n.value
+        if isinstance(base, ast.Call) and isinstance(base.func, ast.Name) and base.func.id == "memoryview" and len(base.args) == 1 and not base.keywords:
+            base = base.args[0]          # a view of the buffer is sliced where the buffer would be (no copy until bytes() is applied)
+        return norm(base), lo, hi, copied
     return None
 
 
@@ -417,11 +432,27 @@ def check(model: Model, run: Run) -> None:
             elif dels:
                 d = dels[0]
                 ok = bool(d) and d[0] == key_base and d[1] in (None, "0") and canon(d[2] or "") == canon(hi) and newoff == "0" and len(dels) == 1
+                if not ok and bool(d) and d[0] == key_base and d[1] in (None, "0") and d[2] is None and newoff == "0" and len(dels) == 1:
+                    # everything deleted: exactly the consumed prefix when the path says the returned slice reached the end of the buffer
+                    full = {canon(f"({hi}) == len({key_base})"), canon(f"len({key_base}) == ({hi})"), canon(f"{hi} == len({key_base})"), canon(f"len({key_base}) == {hi}")}
+                    ok = any(v is True and canon(expand(c, defs)) in full for c, v in p.conds) or canon(hi) == canon(f"len({key_base})")
                 why = "prefix deleted from the buffer is not exactly the consumed prefix (up to the end of the returned slice)"
             else:
                 ok = canon(newoff) == canon(hi)
                 why = "new read offset is not the end of the returned slice"
             run.ob("D2-complementary-slices", ok, dict(label, design="offset", new_offset=newoff[:80]))
+            # D7: slicing clamps, arithmetic does not: the end of the returned slice is also what the offset becomes, so it must not be
+            # able to pass the end of the buffer - it is len(buffer), a min() with it, or the path has compared it with len(buffer)
+            him = canon(hi)
+            lb = canon(f"len({key_base})")
+            bounded = him == lb or (him.startswith("min(") and lb in him) or \
+                any(lb in canon(expand(c, defs)) and him in canon(expand(c, defs)) and any(op in expand(c, defs) for op in ("<", ">")) for c, v in p.conds)
+            run.ob("D7-offset-stays-inside-the-buffer", bounded, dict(label, end=hi[:60]))
+            if not bounded:
+                run.fail(Finding("D7-offset-stays-inside-the-buffer", drain.qualname, f"end={hi[:60]}",
+                                 f"the returned slice ends at `{hi[:60]}`, which is never compared with the length of the buffer: the slice stops at the end of the buffer, the stored "
+                                 "offset does not - after one request for more than is pending the offset points past the end and the bytes queued next are skipped",
+                                 model.loc(drain.module, p.ret_stmt)))
             if not ok:
                 run.fail(Finding("D2-complementary-slices", drain.qualname, f"offset-drain return {rt[:60]} | newoff={newoff[:40]} | dels={dels}", why, model.loc(drain.module, p.ret_stmt)))
             other_ops = [(k, v, s) for k, v, s in other_ops if not (k in ("attr_assign", "attr_aug") and v[0] == off_attr)]
